@@ -9,6 +9,7 @@ import (
 	"math/rand"
 	"os"
 	"path/filepath"
+	"reflect"
 
 	"github.com/mandykoh/prism/adobergb"
 	"github.com/mandykoh/prism/ciexyy"
@@ -112,6 +113,37 @@ func intEntry(v int64) dy {
 		s, v = -1, -v
 	}
 	return dy{"s": s, "n": numlog.Limbs(big.NewInt(v))}
+}
+
+// m3call calls a method of matrix.Matrix3 by name on a copy of m, whatever kind of receiver,
+// parameters and results the method has today (value or pointer): the algebra is what C20 is
+// about, not the calling convention.  Results are returned as values.
+func m3call(m matrix.Matrix3, name string, args ...interface{}) interface{} {
+	recv := reflect.ValueOf(&m) // the pointer's method set includes the value methods
+	meth := recv.MethodByName(name)
+	if !meth.IsValid() {
+		panic("verif: matrix.Matrix3 has no method " + name)
+	}
+	mt := meth.Type()
+	in := make([]reflect.Value, len(args))
+	for i, a := range args {
+		v := reflect.ValueOf(a)
+		if mt.In(i).Kind() == reflect.Ptr && v.Kind() != reflect.Ptr {
+			pv := reflect.New(v.Type())
+			pv.Elem().Set(v)
+			v = pv
+		}
+		in[i] = v
+	}
+	out := meth.Call(in)
+	if len(out) == 0 {
+		return nil
+	}
+	r := out[0]
+	if r.Kind() == reflect.Ptr {
+		r = r.Elem()
+	}
+	return r.Interface()
 }
 
 func matrixCmd(args []string) error {
@@ -423,7 +455,7 @@ func matrixCmd(args []string) error {
 							pan = true
 						}
 					}()
-					inv = a.Inverse()
+					inv = m3call(a, "Inverse").(matrix.Matrix3)
 				}()
 				if pan {
 					sink.put(dy{"kind": "singular", "a": ai, "q": q, "panicked": false, "note": "Inverse panicked on a regular matrix"})
@@ -431,9 +463,9 @@ func matrixCmd(args []string) error {
 					sink.put(dy{"kind": "inverse", "a": ai, "q": q, "o": rowsOf(inv)})
 				}
 			}
-			sink.put(dy{"kind": "mulm", "a": ai, "b": bi, "q": q, "o": rowsOf(a.MulM(b))})
+			sink.put(dy{"kind": "mulm", "a": ai, "b": bi, "q": q, "o": rowsOf(m3call(a, "MulM", b).(matrix.Matrix3))})
 			v := matrix.Vector3{b[0][0], b[1][0], b[2][0]}
-			mv := a.MulV(v)
+			mv := m3call(a, "MulV", v).(matrix.Vector3)
 			sink.put(dy{"kind": "mulv", "a": ai, "v": []dy{bi[0][0], bi[0][1], bi[0][2]}, "q": q, "o": []dy{obsv(mv[0]), obsv(mv[1]), obsv(mv[2])}})
 			if i%4 == 0 { // structured vectors: uniform (1,1,1) / (g,g,g), unit, zero, two equal components
 				g := bi[0][i/4%3]
@@ -445,11 +477,11 @@ func matrixCmd(args []string) error {
 				}{{matrix.Vector3{1, 1, 1}, []dy{one, one, one}}, {matrix.Vector3{gv, gv, gv}, []dy{g, g, g}},
 					{matrix.Vector3{0, 1, 0}, []dy{zero, one, zero}}, {matrix.Vector3{0, 0, 0}, []dy{zero, zero, zero}},
 					{matrix.Vector3{gv, gv, 1}, []dy{g, g, one}}, {matrix.Vector3{1, gv, gv}, []dy{one, g, g}}} {
-					m2 := a.MulV(sv.v)
+					m2 := m3call(a, "MulV", sv.v).(matrix.Vector3)
 					sink.put(dy{"kind": "mulv", "a": ai, "v": sv.iv, "q": q, "o": []dy{obsv(m2[0]), obsv(m2[1]), obsv(m2[2])}})
 				}
 			}
-			sink.put(dy{"kind": "transpose", "a": ai, "q": q, "o": rowsOf(a.Transpose())})
+			sink.put(dy{"kind": "transpose", "a": ai, "q": q, "o": rowsOf(m3call(a, "Transpose").(matrix.Matrix3))})
 			// Dot and MulS through the same contracts: Dot(u, v) = (row vector u) * v ; MulS = scaling
 			if i%3 == 0 {
 				// exactly singular: repeated or zero columns
@@ -480,7 +512,7 @@ func matrixCmd(args []string) error {
 							pan = true
 						}
 					}()
-					s.Inverse()
+					m3call(s, "Inverse")
 				}()
 				sink.put(dy{"kind": "singular", "a": si, "q": q, "panicked": pan})
 			}
